@@ -46,6 +46,77 @@ theorem rejected_touches_nothing (cfg : Cfg) (s : State) (f : Fresh)
   | trial h => rw [hst] at h; cases h
   | rejectHalf h => rw [hst] at h; cases h
 
+/-- "Answered at once": the step that rejects a caller leaves the breaker and the running calls untouched and
+appends, at that very instant and as its first event, the open-circuit error or the invocation of the
+configured fallback (`fallback_call`), followed by nothing but that fallback's own value if it finishes at once.
+Holds in *any* state: in particular however many other callers' fallbacks are still pending (`s.falling`) —
+a rejected caller never waits for another caller's fallback. -/
+theorem rejected_answered_at_once (cfg : Cfg) (s : State) (f : Fresh) :
+    (rejected cfg s f).circ = s.circ ∧ (rejected cfg s f).running = s.running ∧
+    ∃ rest, (rejected cfg s f).log =
+        s.log ++ (s.now, if cfg.fallback then CEv.fbCall f.c else CEv.result f.c .openCircuit) :: rest ∧
+      ∀ p ∈ rest, p = (s.now, CEv.result f.c (fbRes f.c f.fb.out)) := by
+  unfold rejected
+  by_cases hfb : cfg.fallback = true
+  · simp only [hfb, if_true]
+    unfold startFallback
+    split
+    · exact ⟨rfl, rfl, [(s.now, CEv.result f.c (fbRes f.c f.fb.out))], rfl, by simp⟩
+    · exact ⟨rfl, rfl, [], rfl, by simp⟩
+  · simp only [hfb]
+    exact ⟨rfl, rfl, [], rfl, by simp⟩
+
+/-- A pending fallback is outside the breaker: polling (or dropping) a caller that waits for its fallback
+reads and writes nothing of the circuit, starts no inner call and touches no other caller; all it can do is
+deliver that caller's own result (or record the cancellation). So it cannot hold the breaker's lock. -/
+theorem pending_fallback_outside_breaker (cfg : Cfg) (s : State) (c : Nat) (r : Falling)
+    (hf : findFresh s.fresh c = none) (hr : findFalling s.falling c = some r) :
+    (stepS cfg s (.poll c)).circ = s.circ ∧ (stepS cfg s (.poll c)).running = s.running ∧
+    (stepS cfg s (.poll c)).fresh = s.fresh ∧ (stepS cfg s (.poll c)).serial = s.serial ∧
+    ((stepS cfg s (.poll c)).log = s.log ∨
+      (stepS cfg s (.poll c)).log = s.log ++ [(s.now, CEv.result r.c (fbRes r.c r.out))]) ∧
+    (stepS cfg s (.drop c)).circ = s.circ ∧ (stepS cfg s (.drop c)).running = s.running ∧
+    (stepS cfg s (.drop c)).log = s.log ++ [(s.now, CEv.fbDrop r.c)] := by
+  simp only [stepS, hf, hr]
+  have hp := pollFalling_frame s r
+  exact ⟨hp.1, hp.2.1, hp.2.2.1, hp.2.2.2.1, hp.2.2.2.2, rfl, rfl, rfl⟩
+
+/-- The breaker never depends on pending fallbacks: for every operation that is not the poll / drop of a caller
+waiting for its fallback — admissions and rejections of other callers (same handle or clones), completions and
+outcome recordings of calls admitted earlier, `state()` / `metrics()` probes, `force_open`, `force_closed`,
+`reset`, time — the step does to everything but the list of pending fallbacks exactly what it would do if no
+fallback were pending at all (`core` forgets that list). -/
+theorem breaker_ignores_pending_fallbacks (cfg : Cfg) (s : State) (op : Op)
+    (h : ∀ c, (op = .poll c ∨ op = .drop c) → findFalling s.falling c = none) :
+    core (stepS cfg s op) = core (stepS cfg (core s) op) := by
+  cases op with
+  | adv ms => rfl
+  | arrive c sc tag fb =>
+    simp only [stepS, show (core s).seen = s.seen from rfl]
+    split <;> rfl
+  | poll c =>
+    have hn := h c (Or.inl rfl)
+    simp only [stepS, show (core s).fresh = s.fresh from rfl, show (core s).falling = [] from rfl, hn]
+    cases findFresh s.fresh c with
+    | some f => exact (pollFresh_core cfg s f).symm
+    | none =>
+      show core (pollRunning cfg s c) = core (pollRunning cfg (core s) c)
+      rw [pollRunning_core]; rfl
+  | drop c =>
+    have hn := h c (Or.inr rfl)
+    simp only [stepS, show (core s).fresh = s.fresh from rfl, show (core s).falling = [] from rfl, hn,
+      show (core s).running = s.running from rfl]
+    cases findFresh s.fresh c with
+    | some f => rfl
+    | none =>
+      show core (match findRunning s.running c with | some r => dropRunning s c r | none => s)
+        = core (match findRunning s.running c with | some r => dropRunning (core s) c r | none => core s)
+      cases findRunning s.running c <;> rfl
+  | forceOpen => rfl
+  | forceClosed => rfl
+  | reset => rfl
+  | views => rfl
+
 /-- If a caller is admitted while the breaker is open, then `wait_duration_in_open` had elapsed
 and the breaker moved to half-open first (the admission's first event is that transition). -/
 theorem admitted_from_open (cfg : Cfg) (s : State) (f : Fresh) (hst : s.circ.st = .opened)
@@ -72,7 +143,7 @@ theorem leaves_open_only_after_wait_or_manual (cfg : Cfg) (s : State) (op : Op)
     op = .forceClosed ∨ op = .reset ∨ ∃ c, op = .poll c ∧ s.now - s.circ.lastChange ≥ cfg.waitMs := by
   cases op with
   | adv ms => exact absurd hst hleft
-  | arrive c sc tag => simp only [stepS] at hleft; split at hleft <;> exact absurd hst hleft
+  | arrive c sc tag fb => simp only [stepS] at hleft; split at hleft <;> exact absurd hst hleft
   | poll c =>
     right; right
     refine ⟨c, rfl, ?_⟩
@@ -83,16 +154,20 @@ theorem leaves_open_only_after_wait_or_manual (cfg : Cfg) (s : State) (op : Op)
       split at hleft
       · rename_i f _
         rw [rejected_touches_nothing cfg s f hst (by omega)] at hleft
-        exact hleft hst
-      · exact hleft (pollRunning_opened cfg s c hst)
+        exact hleft (by rw [rejected_circ]; exact hst)
+      · split at hleft
+        · rename_i r _; rw [(pollFalling_frame s r).1] at hleft; exact hleft hst
+        · exact hleft (pollRunning_opened cfg s c hst)
   | drop c =>
     simp only [stepS] at hleft
     split at hleft
     · exact absurd hst hleft
     · split at hleft
-      · unfold dropRunning at hleft; simp only at hleft
-        rw [releaseTrial_st] at hleft; exact absurd hst hleft
       · exact absurd hst hleft
+      · split at hleft
+        · unfold dropRunning at hleft; simp only at hleft
+          rw [releaseTrial_st] at hleft; exact absurd hst hleft
+        · exact absurd hst hleft
   | forceOpen =>
     simp only [stepS, emit_circ] at hleft
     rw [transitionTo_st] at hleft; exact absurd rfl hleft
@@ -110,5 +185,19 @@ example :
     (run cfg (pre ++ [.adv 29, .arrive 3 ⟨0, .ok⟩ 0, .poll 3])).serial = 2 ∧
     (run cfg (pre ++ [.adv 30, .arrive 3 ⟨5, .ok⟩ 0, .poll 3])).circ.st = .halfOpen ∧
     (run cfg (pre ++ [.adv 30, .arrive 3 ⟨5, .ok⟩ 0, .poll 3])).serial = 3 := by decide
+
+/-- Non-vacuity: an open breaker with a fallback; caller 1's fallback takes 5 ms, caller 2 (a clone) arrives
+meanwhile and is answered at once by its own fallback, a probe and `force_closed` go through meanwhile, caller 3
+is then admitted; caller 1 gets its fallback value at t = 5. The inner service is reached by caller 3 only. -/
+example :
+    let cfg : Cfg := { size := 2, minCalls := 2, waitMs := 1000, fallback := true }
+    let ops := [Op.forceOpen, .arrive 1 ⟨0, .ok⟩ 0 ⟨5, .ok⟩, .poll 1, .arrive 2 ⟨0, .ok⟩ 0, .poll 2, .views, .forceClosed,
+                .arrive 3 ⟨0, .ok⟩ 0, .poll 3, .adv 5, .poll 1]
+    (run cfg ops).log.map (·.2) =
+      [.manual "force_open", .transition .closed .opened, .fbCall 1, .fbCall 2, .result 2 (.fallback 2),
+       .views "views state=open sync=open is_open=1 mstate=open total=0 fail=0 succ=0 slow=0",
+       .manual "force_closed", .transition .opened .closed, .innerCall 3 0, .innerDone 3 0 .ok, .result 3 (.ok 0),
+       .result 1 (.fallback 1)] ∧
+    (run cfg ops).falling.length = 0 := by decide
 
 end TR.Props.C03
